@@ -452,6 +452,8 @@ def judge(fs, op, res):
         del parent.kids[base]
         return None
 
+    if kind == "shapes":
+        return None if res.startswith("s=:") else "shapes answered " + res[:40]
     if kind == "release":
         return None if res == "ok" else "release answered " + res
     if kind in ("flush", "hflush"):
@@ -578,6 +580,8 @@ def compare(case, impl, model):
     if len(ip) != len(mp):
         return False
     for a, b in zip(ip, mp):
+        if b.startswith("s~:"):
+            continue          # segment shapes after a timing-dependent event: not comparable
         if not b.startswith("m") or ":" not in b:
             if a != b:
                 return False
